@@ -66,11 +66,14 @@ def _callable_object(inner: Any, unhashable: bool = False, falsy: bool = False) 
 def cases(draw: Any, tier: str) -> dict:
     d = D(draw)
     n = d.int(2, 8 if tier == "quick" else 12)
+    large = d.pct(4)
+    if large:
+        n = d.pick([34, 40, 70])  # dozens of registrations on one context
     body_sleep = d.pick([0, 2, 4, 6])
     regs: list[dict] = []
     crashed = False
     for _ in range(n):
-        k = d.weighted([("td", 25), ("res", 25), ("svc", 50)])
+        k = d.weighted([("td", 25), ("res", 25), ("svc", 50)]) if not large else d.weighted([("td", 45), ("res", 40), ("svc", 15)])
         if k != "svc":
             regs.append({"k": k})
             continue
@@ -82,7 +85,7 @@ def cases(draw: Any, tier: str) -> dict:
         else:
             beh = d.pick(["self_end", "until_told", "until_cancel"])
         dd = d.pick([x for x in (1, 3, 5, 7) if x != body_sleep])
-        r: dict[str, Any] = {"k": "svc", "action": action, "beh": beh, "d": dd, "c": d.weighted([(0, 30), (1, 35), (2, 20), (3, 15)]),
+        r: dict[str, Any] = {"k": "svc", "action": action, "beh": beh, "d": dd, "c": d.weighted([(0, 30), (1, 33), (2, 19), (3, 14), (35, 2), (100, 2)]),  # (clean-up may take long)
                              "shape": d.weighted([("function", 60), ("object", 17), ("partial", 13), ("falsy_object", 10)]),
                              "started": d.pct(30), "inner_td": d.pct(40), "via": d.pick(["module", "method"])}
         if d.pct(30):
